@@ -27,6 +27,7 @@ ivars == <<wvars, disk, rag, counter, width, tdisk>>
 Hole == 0
 ByteLen(c) == CASE c = "short" -> 20 [] c = "exact100" -> 100
                 [] c = "long150" -> 150 [] c = "unicode" -> 60 [] c = "bytes" -> 30
+                [] c = "unicode140" -> 140
 Max(a, b) == IF a > b THEN a ELSE b
 MaxOver(S) == IF S = {} THEN 0 ELSE CHOOSE m \in S : \A x \in S : x <= m
 
